@@ -61,6 +61,53 @@ CLAIMED = {
         design="DESIGN.md section 2, C02",
         technique="symbolic execution of the real functions on z3-real object arrays; polynomial-identity validity queries (z3)",
     ),
+    "C03": dict(
+        text="The real conversion routines, views, norms, wrapper classes and validators of the six factorised formats run on solver variables under both tenalg backends; every dense / "
+        "unfolded / vectorised / matrix / slice entry is compared with the defining contraction written over the input variables (polynomial-identity queries), reported shape/rank with the "
+        "sizes built by the harness, norm**2 with the sum of squared dense entries, and a finite family of structurally invalid factor sets must be rejected.",
+        design="DESIGN.md section 2, C03", technique="symbolic execution on z3-real object arrays; polynomial-identity validity queries (z3)",
+    ),
+    "C04": dict(
+        text="Normalisation, sign flip, component permutation (assignment solver stubbed by its optimality contract, forked over all permutations), factorised mode products, TT padding, "
+        "CP->PARAFAC2 conversion and SVD compression/decompression run on solver variables (zero columns, zero-mean columns, negative weights inside the quantifier); the dense tensor "
+        "before/after (index-sum oracle) must be identical and the advertised canonical form must hold, on every zero/non-zero path of the column norms.",
+        design="DESIGN.md section 2, C04", technique="path-forking symbolic execution; identity + canonical-form validity queries with root atoms (z3)",
+    ),
+    "C05": dict(
+        text="Everything tensorly adds around LAPACK in the SVD interface (shape/clamping logic, slicing, symeig reordering, sign canonicalisation incl. ties, NNDSVD/NNDSVDa non-negativity and "
+        "finiteness, dispatch, mask imputation, randomized-SVD shape logic) is executed on solver variables relative to contract stubs of svd/eigh/qr whose orthonormal outputs are generated "
+        "identically (Givens). That LAPACK returns the true singular triple and randomized_svd accuracy are outside the claim (see not_applicable clauses in the evidence).",
+        design="DESIGN.md section 2, C05", technique="symbolic execution relative to Givens-generated LAPACK contract stubs; validity queries (z3)",
+    ),
+    "C09": dict(
+        text="Exactness at sufficient rank: TT-SVD, TT-matrix, TR-SVD (every starting mode) and Tucker/HOOI run on solver variables with the SVD replaced by its factorisation contract; one lemma per "
+        "SVD call (core contracted with the remainder equals the matrix handed to that SVD) is decided over that call's facts alone and composed by induction into reconstruction == input; used ranks "
+        "never exceed requested ones. The quasi-optimality inequalities for insufficient ranks are declared not applicable (evidence: outside_claim).",
+        design="DESIGN.md section 2, C09", technique="symbolic execution with SVD factorisation-contract stubs; per-call lemma chain of identity queries (z3)",
+    ),
+    "C10": dict(
+        text="Compositional sign proof: unit obligations on the real update code (HALS rows, FISTA iterate, active-set return, ADMM with non-negativity, PARAFAC2 line step, NNDSVD) with arbitrary signed "
+        "inputs, and loop obligations where each non-negative decomposition runs 0-2 sweeps on signed symbolic data with inner solvers replaced by exactly the contract the unit obligations proved; "
+        "every returned entry on a declared mode must be >= 0.",
+        design="DESIGN.md section 2, C10", technique="compositional symbolic execution; sign validity queries in LRA/NRA (z3)",
+    ),
+    "C13": dict(
+        text="Fixed-point characterisation: a point that one real HALS sweep / FISTA step leaves unchanged, or at which the real active-set loop exits through its own test, satisfies the KKT system "
+        "of the (l1/ridge penalised) NNLS problem; every HALS row update is the exact clipped coordinate minimiser; ADMM without constraints returns the normal-equation solution. Convergence "
+        "itself (a limit statement) is outside the claim.",
+        design="DESIGN.md section 2, C13", technique="symbolic execution of one solver step from an arbitrary state; KKT validity queries (z3)",
+    ),
+    "C19": dict(
+        text="CP/Tucker regressors: fit() runs on solver variables with havoc'd solves; weight_tensor_, vec_W_ and predict() on fresh symbolic samples are compared with index-sum oracles built from the exposed "
+        "factors. CP-PLSR: transform(train) == scores, unit-norm loadings, and two-run invariance obligations (constant shifts of X / Y, sample permutation) with functional SVD/lstsq models.",
+        design="DESIGN.md section 2, C19", technique="symbolic execution; polynomial-identity and two-run equality queries (z3)",
+    ),
+    "C20": dict(
+        text="The real metric functions run on solver variables; SciPy's assignment solver is a contract stub (fork over all permutations, optimality as a named fact group). The cost matrix handed to it, "
+        "the returned value/permutation, range [0,1] (via per-pair Cauchy-Schwarz lemmas proved separately), invariance under column permutation/rescaling, correlation index, MSE/RMSE/R2/correlation "
+        "definitions and leverage-score properties are validity queries.",
+        design="DESIGN.md section 2, C20", technique="symbolic execution with an assignment-contract stub; hierarchical lemma + validity queries (z3)",
+    ),
     "C06": dict(
         text="The real CP-ALS (plain, normalised, l2, masked, sparse+low-rank, line-search, orthogonalised, fixed-mode, SVD/random/user init), HOOI/Tucker and PARAFAC2 loops are "
         "executed symbolically with havoc'd or Givens-generated kernels, so every sweep starts from an arbitrary iterate; each reported error (list entries and callback "
